@@ -66,6 +66,19 @@ class C20:
             out.append(["make_std_api-asm:" + v, api_asm(), 1])
         return out
 
+    def fixed_cases(self, ctx):
+        from vf.gen import tables as gt
+        # handler targets far into a code object (3-byte varints in the exception table), on every host that has the table
+        for h in HOSTS:
+            if pd.vt(h) >= (3, 11):
+                entries = [[10, 5, 4100, 1, False], [4200, 3, 4300, 0, True], [2, 1, 70, 2, False]]
+                yield {"t": "host", "host": h, "first_line": None, "src": "pass\n", "exc": entries, "units": 4400}
+        # every opcode of every version once through make_std_api on a foreign host
+        for v in ALL_VERSIONS:
+            h = [t for t in HOSTS if t != v][len(v) % 5]
+            for items in ga.opcode_sweeps(self.pp.tables(ctx, v)):
+                yield {"t": "api", "host": h, "v": v, "src": "", "items": items}
+
     def judge(self, case, ctx):
         res = Result()
         h = case.get("host")
@@ -73,7 +86,17 @@ class C20:
             res.reject = "malformed-case"
             return res
         if case.get("t") == "host":
-            r = ctx.pool.host(h).call("x_std", src=case["src"], first_line=case.get("first_line"))
+            kw = {}
+            if case.get("exc") is not None:
+                from vf.gen import tables as gt
+                try:
+                    kw = {"exc_hex": rw.hx(gt.encode_exctab(case["exc"])), "units": int(case["units"]), "max_code": 2 * int(case["units"]) + 10}
+                    if not (1 <= kw["units"] <= 6000):
+                        raise ValueError
+                except Exception:
+                    res.reject = "malformed-case"
+                    return res
+            r = ctx.pool.host(h).call("x_std", src=case["src"], first_line=case.get("first_line"), **kw)
             if "reject" in r:
                 res.reject = "compiler-rejects:" + r["reject"].split(":")[0]
                 return res
